@@ -1703,6 +1703,10 @@ class HDKey(Key):
         bkey = change_base(wif, 58, 256)
         if len(bkey) != 82:
             raise BKeyError("Invalid BIP32 HDkey WIF. Length must be 82 characters")
+        if bkey[-4:] != double_sha256(bkey[:-4])[:4]:
+            raise BKeyError("Invalid BIP32 HDkey WIF. Checksum incorrect")
+        if ord(bkey[45:46]) not in (0, 2, 3):
+            raise BKeyError("Invalid BIP32 HDkey WIF. Key data must start with 00, 02 or 03")
 
         if ord(bkey[45:46]):
             is_private = False
@@ -1719,6 +1723,8 @@ class HDKey(Key):
         prefix_data = wif_prefix_search(key_hex[:8], network=network, multisig=multisig)
         if not prefix_data:
             raise BKeyError("Invalid BIP32 HDkey WIF. Cannot find prefix in network definitions")
+        if any(n['is_private'] != is_private for n in prefix_data):
+            raise BKeyError("Invalid BIP32 HDkey WIF. Key data does not correspond with private/public version prefix")
 
         networks = list(dict.fromkeys([n['network'] for n in prefix_data]))
         if not network and networks:
@@ -1816,6 +1822,13 @@ class HDKey(Key):
                 network = Network(check_network_and_key(import_key, network, kf["networks"]))
                 if kf['format'] in ['hdkey_private', 'hdkey_public']:
                     bkey = change_base(import_key, 58, 256)
+                    if len(bkey) != 82:
+                        raise BKeyError("Invalid BIP32 HDkey WIF. Length must be 82 characters")
+                    if bkey[-4:] != double_sha256(bkey[:-4])[:4]:
+                        raise BKeyError("Invalid BIP32 HDkey WIF. Checksum incorrect")
+                    if ord(bkey[45:46]) not in (0, 2, 3) or kf['is_private'] != (not ord(bkey[45:46])):
+                        raise BKeyError("Invalid BIP32 HDkey WIF. Key data does not correspond with private/public "
+                                        "version prefix")
                     # Derive key, chain, depth, child_index and fingerprint part from extended key WIF
                     if ord(bkey[45:46]):
                         is_private = False
